@@ -117,6 +117,7 @@ PROPS = {
              "shards": {Q: 6, T: 8}, "timeout": {Q: 300, T: 900}},
             {"name": "random", "test": "TestRandom", "checks": {Q: 60000, T: 1500000}, "shards": {Q: 6, T: 8},
              "timeout": {Q: 300, T: 1800}},
+            {"name": "large", "test": "TestLarge", "checks": {Q: 4000, T: 100000}, "shards": {Q: 4, T: 8}, "timeout": {Q: 400, T: 2400}},
             {"name": "cli", "test": "TestCLI", "checks": {Q: 160, T: 4000}, "shards": {Q: 4, T: 8},
              "timeout": {Q: 300, T: 1800}},
         ],
